@@ -63,17 +63,20 @@ const (
 	hPanicTop
 	hDeferRun
 	hLoopDefer
-	nHazards = 19
+	hLoopInTry
+	nHazards = 20
 )
 
 var hazardNames = []string{
 	"caught", "swallowed", "uncaught", "err-frame", "err-defers", "err-in-catch",
 	"brk-try", "cont-try", "ret-try", "brk-catch", "cont-catch", "ret-catch",
-	"panic-try", "panic-catch", "panic-frame", "recovered", "panic-top", "defers", "defer-in-loop",
+	"panic-try", "panic-catch", "panic-frame", "recovered", "panic-top", "defers", "defer-in-loop", "loop-done-in-try",
 }
 
 func hazardString(m uint32) string {
 	var parts []string
+
+	m &^= hLoopDefer // counted as coverage, too incidental to name a cell
 
 	for i := 0; i < nHazards; i++ {
 		if m&(1<<i) != 0 {
@@ -106,7 +109,7 @@ type expectation struct {
 type frame struct {
 	defers []*Stmt
 	loops  []int
-	inLoop []bool // per pending defer: registered inside a loop?
+	tries  int // try bodies of this function that are being executed
 }
 
 type model struct {
@@ -180,7 +183,9 @@ func (m *model) stmt(s *Stmt) sig {
 	case 'T', 'U':
 		m.emit("Bt", s.ID, false)
 		m.tryDepth++
+		m.top().tries++
 		g := m.block(s.Body)
+		m.top().tries--
 		m.tryDepth--
 
 		switch g {
@@ -235,10 +240,18 @@ func (m *model) stmt(s *Stmt) sig {
 			switch g := m.block(s.Body); g {
 			case sNormal, sCont:
 			case sBreak:
+				if f.tries > 0 {
+					m.haz |= hLoopInTry
+				}
+
 				return sNormal
 			default:
 				return g
 			}
+		}
+
+		if f.tries > 0 {
+			m.haz |= hLoopInTry
 		}
 
 		return sNormal
@@ -373,9 +386,20 @@ func expect(p *Prog, guarded bool, panicCaught bool) *expectation {
 	return &expectation{toks: m.out, hazAt: m.hazAt, haz: m.haz, status: st}
 }
 
-// tokenType strips the number: "Bc12" -> "Bc".
+// tokenType is the class of a trace token used in cell names: "catch" (entry
+// of a handler), "defer" (a deferred call ran), "cont" (any other marker:
+// execution simply went on), or the token itself for END / ABORT-ERR / ABORT-PANIC.
 func tokenType(s string) string {
-	return strings.TrimRight(s, "0123456789")
+	switch strings.TrimRight(s, "0123456789") {
+	case "Bc":
+		return "catch"
+	case "D", "R":
+		return "defer"
+	case "M", "Bt", "Bl", "Bi", "Bf":
+		return "cont"
+	}
+
+	return s
 }
 
 type verdict struct {
